@@ -594,9 +594,15 @@ class HandHistory(Iterable[State]):
             elif isinstance(operation, CheckingOrCalling):
                 action = f'p{operation.player_index + 1} cc'
             elif isinstance(operation, CompletionBettingOrRaisingTo):
-                action = (
-                    f'p{operation.player_index + 1} cbr {operation.amount}'
-                )
+                amount = str(operation.amount)
+
+                if (
+                        not isinstance(operation.amount, int)
+                        and amount.lstrip('-').isdigit()
+                ):
+                    amount += '.0'
+
+                action = f'p{operation.player_index + 1} cbr {amount}'
             elif isinstance(operation, HoleCardsShowingOrMucking):
                 action = (
                     f'p{operation.player_index + 1} sm '
